@@ -5,6 +5,7 @@ package timemath
 // Contracts for the verification machinery in /verif (comment-only; not compiled without the tag).
 
 //@ func Sgn
+//@   inline
 //@   ensures sign: (d < 0 ==> result == -1) && (d > 0 ==> result == 1) && (d == 0 ==> result == 0)
 
 //@ func Inv
